@@ -77,8 +77,8 @@ def family(chk, F, fam, exact, withp, full, policy):
         raise AnchorLost("%s does not call %s" % (withp, exact))
     (c1, t1), rest = first_and_rest(fn, sites)
     # first lookup uses the whole name
-    name_arg = fn.apath(t1["args"][1])
-    chk.decide(name_arg == (("arg", 2), ()), "fallback-order", fk, "exact-on-whole-name", fn.where(c1),
+    name_arg = fn.apath(name_op(F, t1))
+    chk.decide(is_whole_name(fn, name_arg), "fallback-order", fk, "exact-on-whole-name", fn.where(c1),
                "the exact lookup is tried on the unmodified name first", "first exact lookup is on %s, not the whole name" % ap_str(name_arg))
     k2.returned_unchanged(chk, fn, "fallback-order", fk, c1, "exact-hit-returned")
     second = [b for b, _ in rest]
@@ -148,22 +148,54 @@ def family(chk, F, fam, exact, withp, full, policy):
     if len(sites) == 2 and not esites:
         (c1, t1), rest = first_and_rest(fn, sites)
         c2, t2 = rest[0]
-        chk.decide(fn.apath(t1["args"][1]) == (("arg", 2), ()), "fallback-order", fk, "whole-name-first", fn.where(c1),
+        chk.decide(is_whole_name(fn, fn.apath(name_op(F, t1))), "fallback-order", fk, "whole-name-first", fn.where(c1),
                    "the full prefixed lookup is tried on the unmodified name first", "first lookup is not on the whole name")
         k2.fallback_order(chk, fn, "fallback-order", fk, c1, c2, "plural-after-prefix")
         k2.returned_unchanged(chk, fn, "fallback-order", fk, c1, "prefix-hit-returned")
         chk.decide(strips_s(fn, c2, t2), "fallback-order", fk, "plural-strips-trailing-s", fn.where(c2),
                    "the retry is on the name without its trailing 's' and only when there is one",
-                   "plural retry argument is %s" % ap_str(fn.apath(t2["args"][1]))[:160])
+                   "plural retry argument is %s" % ap_str(fn.apath(name_op(F, t2)))[:160])
         return
     # any other arrangement of the stage calls (closures included): order them along the all-miss path and compare
     # the flattened stage sequence with exact(whole) < prefix(whole) < exact(singular) < prefix(singular)
     stage_order(chk, fn, fk, [(b, t, "P") for b, t in sites] + [(b, t, "E") for b, t in esites], F, exact, withp)
 
 
-def strips_s(fn, c2, t2):
-    s2 = ap_str(fn.apath(t2["args"][1]))
-    if "strip_suffix(arg2, " in s2 and "as Some" in s2:
+def name_param(fn):
+    """Which parameter of a lookup function is the name (1-based): the one of a string type, wherever it stands."""
+    for i in range(2, fn.raw.get("arg_count", 0) + 1):
+        ty = fn.locals[i]
+        if "str" in ty or "String" in ty:
+            return i
+    return 2
+
+
+def name_op(F, t):
+    """The operand a call passes as the name (the callee's string parameter)."""
+    g = F.fns.get(t["callee"]["id"]) if "callee" in t else None
+    i = name_param(g) - 1 if g is not None else 1
+    return t["args"][i] if i < len(t["args"]) else t["args"][-1]
+
+
+def is_whole_name(fn, ap):
+    """The function's own name parameter, possibly re-wrapped by value-preserving conversions (clone, Rc::new(x.to_owned()) ..)."""
+    np_ = name_param(fn)
+    for _ in range(8):
+        if ap == (("arg", np_), ()):
+            return True
+        r = ap[0]
+        if r[0] == "call" and not ap[1] and len(r[2]) == 1 and r[1].endswith(REWRAP):
+            ap = r[2][0]
+            continue
+        return False
+    return False
+
+
+def strips_s(fn, c2, t2, F=None):
+    import facts as _f
+    F = F or _f.CURRENT
+    s2 = ap_str(fn.apath(name_op(F, t2)))
+    if ("strip_suffix(arg%d, " % name_param(fn)) in s2 and "as Some" in s2:
         return True
     # name[0..len-1] guarded by ends_with('s')
     gs = [fn.guard_desc(g) for g in fn.guards_of(c2)]
@@ -215,10 +247,10 @@ def stage_order(chk, fn, fk, calls, F, exact, withp):
             raise AnchorLost("%s: lookup stages at %s and %s are not ordered along one path" % (fn.path, fn.where(a[0]), fn.where(b[0])))
     flat = []
     for i, (bb, t, kind) in enumerate(order):
-        ap = fn.apath(t["args"][1])
-        if ap == (("arg", 2), ()):
+        ap = fn.apath(name_op(F, t)) if "callee" in t else fn.apath(t["args"][1])
+        if is_whole_name(fn, ap):
             nm = "whole"
-        elif "strip_suffix(arg2, " in ap_str(ap) or (bb not in recv_of and strips_s(fn, bb, t)):
+        elif ("strip_suffix(arg%d, " % name_param(fn)) in ap_str(ap) or (bb not in recv_of and strips_s(fn, bb, t)):
             nm = "singular"
         else:
             chk.finding("fallback-order", fk, "stage-name", fn.where(bb),
@@ -311,7 +343,7 @@ def context_lookup(chk, F):
     chk.decide(len([d for d in gs if d[0] == "bool" and d[2] is False]) >= 3 and temp_none, "context-lookup", fk, "ans-and-temporaries-first", fn.where(rb),
                "the registry is consulted only after the three ans-name tests failed and temporaries had no entry",
                "Registry::lookup is reachable without the ans/ANS/_ tests and the temporaries miss (guards: %s)" % [ap_str(d[1])[:50] for d in gs])
-    chk.decide(fn.apath(rt["args"][1]) == (("arg", 2), ()), "context-lookup", fk, "same-name", fn.where(rb),
+    chk.decide(is_whole_name(fn, fn.apath(name_op(F, rt))), "context-lookup", fk, "same-name", fn.where(rb),
                "the registry is asked for the same name", "registry lookup uses a different name")
 
 
